@@ -13,7 +13,8 @@ SEAL0 = ("O", "seal0")
 
 def code_hash():
     h = hashlib.sha256()
-    for f in ("absint.py", "absmodels.py", "lin.py", "e3.py", "models.py", "roles.py", "callgraph.py", "cfg.py"):
+    for f in ("absint.py", "absmodels.py", "lin.py", "e3.py", "models.py", "roles.py", "callgraph.py", "cfg.py", "terms.py", "effects.py",
+              "facts.py", "inline.py"):
         with open(os.path.join(VERIF, "lmv", f), "rb") as fh:
             h.update(fh.read())
     return h.hexdigest()[:12]
